@@ -51,74 +51,8 @@ def run(ctx: Ctx) -> None:
     m = ctx.model
     cs = m.cls("CacheSet")
 
-    r = ctx.rule("R10.notify", "policy notified of every access with the right index, in the right order")
-    # --- read
-    f = m.method(cs, "read", own=True)
-    sn = f.params[0]
-    for p in function_paths(f.node):
-        facts: set = set()
-        acc = []
-        idx_name = None
-        for e in p.events:
-            if e.kind == "test":
-                facts |= facts_of(e.node, bool(e.pol))
-            if e.kind == "stmt" and isinstance(e.node, ast.Assign) and isinstance(e.node.value, ast.Call) \
-                    and isinstance(e.node.value.func, ast.Attribute) and e.node.value.func.attr == "get_block_index" \
-                    and isinstance(e.node.targets[0], ast.Name):
-                idx_name = e.node.targets[0].id
-            for c in _policy_calls(e, f, sn):
-                acc.append(c)
-        hit = idx_name is not None and (f"None is {idx_name}", False) in facts
-        key = f"CacheSet.read|{'hit' if hit else 'miss'}"
-        r.inst(key, None)
-        if hit:
-            ok = len(acc) == 1 and acc[0].func.attr == "access" and [ast.unparse(a) for a in acc[0].args] == [idx_name]  # type: ignore[attr-defined]
-            ret = p.term_node.value if isinstance(p.term_node, ast.Return) else None
-            ok = ok and ret is not None and ast.unparse(ret) == f"{sn}.blocks[{idx_name}].values"
-            if not ok:
-                r.viol(key, f.loc(), f"CacheSet.read: the hit path must call replacement_strategy.access({idx_name}) exactly once "
-                       f"and return that block's values (calls: {[seg(f, c) for c in acc]})", p.labels())
-        else:
-            if acc:
-                r.viol(key, f.loc(acc[0]), "CacheSet.read: a miss must not touch the replacement state", p.labels())
-    # --- write
-    f = m.method(cs, "write", own=True)
-    sn = f.params[0]
-    for p in function_paths(f.node):
-        facts = set()
-        seq = []  # (kind, node)
-        for i, e in enumerate(p.events):
-            if e.kind == "test":
-                facts |= facts_of(e.node, bool(e.pol))
-            for c in _policy_calls(e, f, sn):
-                seq.append((c.func.attr, c, e))  # type: ignore[attr-defined]
-            for x in event_exprs(e):
-                for c in calls_in(x):
-                    if isinstance(c.func, ast.Attribute) and c.func.attr == "write" and "replacement_strategy" not in ast.unparse(c.func) \
-                            and not self_attr(c.func.value, sn):
-                        seq.append(("blockwrite", c, e))
-        miss = ("None is block_index", True) in facts
-        key = f"CacheSet.write|{'miss' if miss else 'hit'}"
-        r.inst(key, None)
-        kinds = [k for k, _, _ in seq]
-        if miss:
-            ok = kinds == ["get_next_to_replace", "blockwrite", "access"]
-            if ok:
-                st = seq[0][2].node
-                vname = st.targets[0].id if isinstance(st, ast.Assign) and isinstance(st.targets[0], ast.Name) else None
-                ok = vname is not None and [ast.unparse(a) for a in seq[2][1].args] == [vname]
-                # the written block is blocks[victim]
-                txt = " ".join(ast.unparse(f.node).split())
-                ok = ok and (f"{sn}.blocks[{vname}]" in txt)
-            if not ok:
-                r.viol(key, f.loc(), f"CacheSet.write: the fill path must be victim = get_next_to_replace(); write blocks[victim]; "
-                       f"access(victim) -- found {kinds}", p.labels())
-        else:
-            ok = kinds == ["blockwrite", "access"] and [ast.unparse(a) for a in seq[1][1].args] == ["block_index"]
-            if not ok:
-                r.viol(key, f.loc(), f"CacheSet.write: the hit path must write the block and call access(block_index) -- found {kinds}",
-                       p.labels())
-    r.floor(4)
+    from ..cachesetspec import notify_rule
+    notify_rule(ctx, "R10.notify")
 
     r = ctx.rule("R10.victim", "get_next_to_replace() is called only by the fill path")
     n = 0
